@@ -58,6 +58,10 @@ def tree_case(ctx, tree):
     v = ctx.driver.call("xml.c15", compact=obs[False], pretty=obs[True])
     if not v["ok"]:
         ctx.count("tree_not_wellformed")  # e.g. control characters: C01's business, not C15's
+        ea, eb = xmlutil.expat_tree(obs[False])[0], xmlutil.expat_tree(obs[True])[0]
+        if (ea is None) != (eb is None):
+            ctx.fail(Failure("wellformed-in-one-mode-dom", f"compact well-formed: {ea is not None}; pretty well-formed: {eb is not None}",
+                             {"kind": "dom", "tree": tree}, extra={"compact": obs[False], "pretty": obs[True]}))
     elif not v["equal"]:
         ctx.fail(Failure("pretty-differs-dom", "pretty and compact output of one DOM tree parse to different documents",
                          {"kind": "dom", "tree": tree}, extra={"compact": obs[False], "pretty": obs[True]}))
@@ -80,6 +84,10 @@ def form_case(ctx, form, kw=None):
     v = ctx.driver.call("xml.c15", compact=a["xform"], pretty=b["xform"])
     if not v["ok"]:
         ctx.count("form_not_wellformed")
+        ea, eb = xmlutil.expat_tree(a["xform"])[0], xmlutil.expat_tree(b["xform"])[0]
+        if (ea is None) != (eb is None):
+            ctx.fail(Failure("wellformed-in-one-mode", f"compact well-formed: {ea is not None}; pretty well-formed: {eb is not None}",
+                             {"kind": "form", "form": form}, extra={"compact": a["xform"], "pretty": b["xform"]}))
     elif not v["equal"]:
         ctx.fail(Failure("pretty-differs-form", "pretty and compact XForm parse to different documents",
                          {"kind": "form", "form": form}, extra={"compact": a["xform"], "pretty": b["xform"]}))
@@ -115,6 +123,24 @@ def refs_only(rng, form):
 
 
 
+def many_refs(rng, form):
+    """Display text interpolating many answers (3..12 references separated by text): wide mixed content."""
+    names = [r["name"] for r in form["survey"] if "name" in r and r.get("type") in ("text", "integer", "decimal", "string", "int")]
+    if not names:
+        return
+    for row in form["survey"]:
+        if row.get("type") in ("note", "text") and rng.random() < 0.6:
+            others = [n for n in names if n != row.get("name")] or names
+            for k in list(row):
+                if k.split("::")[0] in ("label", "hint"):
+                    n = rng.randint(3, 12)
+                    parts = [rng.choice(["", "Summary: ", "x "])]
+                    for i in range(n):
+                        parts.append("${" + rng.choice(others) + "}")
+                        parts.append(rng.choice([", ", " and ", "; age: ", " "]) if i < n - 1 else rng.choice(["", ".", " end"]))
+                    row[k] = "".join(parts)
+
+
 def multiline(rng, form):
     """Multi-paragraph cell text (blank and whitespace-only lines inside labels, hints, choice labels,
     defaults): text content that a line-oriented clean-up of the pretty output would damage."""
@@ -144,6 +170,9 @@ def explore(ctx, factor, bs):
         if rng.random() < 0.25:
             refs_only(rng, form)
             ctx.count("refs_only_unicode_space")
+        if rng.random() < 0.2:
+            many_refs(rng, form)
+            ctx.count("many_refs_text")
         form_case(ctx, form)
 
 
